@@ -6,3 +6,6 @@ pub(crate) mod common;
 mod c09;
 mod c14;
 mod c10;
+mod c11;
+mod c12;
+mod c07;
